@@ -12,7 +12,7 @@ pub struct C14 {
 
 impl C14 {
     pub fn new(tier: Tier) -> C14 {
-        C14 { sets: title_sets(tier, (6, 8), (5, 6), (6, 7)) }
+        C14 { sets: title_sets(tier, (6, 9), (5, 7), (6, 8)) }
     }
 }
 
